@@ -492,20 +492,41 @@ type ltrPeer struct {
 // the middle of its walk over the entities (AddEntity accepts any api.EntityLocalInterface).
 type ltrGate struct {
 	*spine.EntityLocal
-	armed   atomic.Bool
-	entered chan struct{}
-	release chan struct{}
+	armed    atomic.Bool
+	entered  chan struct{}
+	release  chan struct{}
+	skipKind atomic.Int32  // 'I' / 'F': the half of the visit that passes without a hold (0 = none)
+	skipGo   atomic.Uint64 // … for this goroutine only
 }
 
-func (g *ltrGate) Information() *model.NodeManagementDetailedDiscoveryEntityInformationType {
+// hold pauses the caller once if the gate is armed. A visit of the walk asks the entity for Information() and for
+// Features(), in either order: the read is held at whichever comes first — "about to render the entity" does not
+// depend on the order in which the walk takes the two — and the other half of the same visit (same goroutine, the
+// other kind, directly after the hold) passes even if the harness has re-armed this very gate in the meantime.
+func (g *ltrGate) hold(kind byte) {
+	if g.skipKind.Load() == int32(kind) && g.skipGo.Load() == h.GoID() {
+		g.skipKind.Store(0)
+		return
+	}
 	if g.armed.CompareAndSwap(true, false) {
 		// take the release channel BEFORE announcing the entry: the harness may re-arm this very gate (rmove to the
 		// entity the read is held at) as soon as it has seen the entry
 		rel := g.release
+		g.skipGo.Store(h.GoID())
+		g.skipKind.Store(int32('I' + 'F' - kind))
 		close(g.entered)
 		<-rel
 	}
+}
+
+func (g *ltrGate) Information() *model.NodeManagementDetailedDiscoveryEntityInformationType {
+	g.hold('I')
 	return g.EntityLocal.Information()
+}
+
+func (g *ltrGate) Features() []api.FeatureLocalInterface {
+	g.hold('F')
+	return g.EntityLocal.Features()
 }
 
 type ltrWorld struct {
